@@ -30,7 +30,7 @@ func run(c *hl.Ctx) error {
 		return nil
 	}
 	r := c.Rand()
-	n := c.Pick(2500, 150000)
+	n := c.Pick(2500, 50000)
 	for i := 0; i < n; i++ {
 		g := semlib.New(r, semlib.Opts{MaxDecls: 40, MaxDepth: 3, Underscore: true, QuotedKw: false, ErrSeeds: i%4 == 0, Nulls: true, EdgeHeavy: true})
 		src := g.Program()
@@ -51,7 +51,7 @@ func run(c *hl.Ctx) error {
 		}
 		c.Emit(cc)
 	}
-	m := c.Pick(1500, 60000)
+	m := c.Pick(1500, 20000)
 	for i := 0; i < m; i++ {
 		g := semlib.New(r, semlib.Opts{MaxDecls: 25, MaxDepth: 3, Underscore: true, ErrSeeds: false, Nulls: i%2 == 0, EdgeHeavy: true})
 		src := g.Program()
@@ -68,7 +68,7 @@ func run(c *hl.Ctx) error {
 		c.Emit(dc)
 	}
 	// deletion followed by a new parallel connection, then a reference to the highest index (the IR index space after deletions)
-	t := c.Pick(300, 10000)
+	t := c.Pick(300, 3000)
 	names := []string{"a", "b", "c", "p.q", "A"}
 	for i := 0; i < t; i++ {
 		g := semlib.New(r, semlib.Opts{MaxDecls: 8, MaxDepth: 2, Underscore: false, ErrSeeds: false, Nulls: false, EdgeHeavy: i%2 == 0})
@@ -87,7 +87,7 @@ func run(c *hl.Ctx) error {
 		c.Count("idx:case:delete-then-add")
 		c.Emit(dc)
 	}
-	k := c.Pick(800, 40000)
+	k := c.Pick(800, 15000)
 	for i := 0; i < k; i++ {
 		src := semlib.RichProgram(r)
 		gc, why := semlib.GraphCase("rich", src)
